@@ -193,7 +193,7 @@ func main() {
 		}
 		for k, v := range ho.Inconcl {
 			if k < 3 {
-				fmt.Fprintf(os.Stderr, "  INCONCLUSIVE %s\n", v.Msg)
+				fmt.Fprintf(os.Stderr, "  INCONCLUSIVE %s\n", firstLine(v.Msg))
 			}
 		}
 	}
